@@ -14,6 +14,13 @@
 //!       Harness-side oracles on the real pack: file length = `index.pack_size()`, every blob's byte range holds the
 //!       data that was added, trailer = `u32 LE` length of the encrypted header, independent parse of the decrypted
 //!       header = index blobs.
+//!  * `rix <0|1> <packs> <files>`  correspondence for the `repair_index` MODEL (`Model/Index.lean repairIndex`): packs =
+//!       `<label>:<t|d>:<adds>:<ok|trunc>` joined by `;` (built with the real `BasicPacker`, header encrypted with the
+//!       repository key, stored under sha256; `trunc` = last byte cut off → unreadable), files = index files joined by `/`,
+//!       file = `<packs>|<packs_to_delete>`, lists = `-` or entries joined by `,`, entry = `<label>` (exact listing),
+//!       `<label>~` (listing without its last blob → size mismatch → header re-read), `?<k>` (a pack that does not exist).
+//!       Real `repair_index(read_all)` runs; then all index files are read.
+//!       -> `ok <label>:u<unmarked listings>m<marked listings><=|x>,… ?<listings of unknown packs>`
 //!  * `repo <variant> <seed>`       oracle only (model prints `ok`): real repository on `MemBackend`; backups, then
 //!       variant ∈ backup | prune-fast | prune-copy | prune-all | copy; afterwards EVERY pack in the store is opened by the
 //!       independent parser below with the master key and compared with the index.
@@ -156,6 +163,12 @@ fn rand_id(rng: &mut Rng) -> [u8; 32] {
         }
         _ => id.copy_from_slice(&rng.bytes(32)),
     }
+    id
+}
+
+fn rand_id_distinct(rng: &mut Rng) -> [u8; 32] {
+    let mut id = [0u8; 32];
+    id.copy_from_slice(&rng.bytes(32));
     id
 }
 
@@ -335,6 +348,78 @@ pub fn generate(thorough: bool, rng: &mut Rng, ops: &mut Vec<String>, stats: &mu
         stats.hit(format!("pack.adds.{}", Stats::bucket(n as usize)));
         stats.add("pack.reads", reads.len() as u64);
         ops.push(format!("c08 pack {t} {} {}", if adds.is_empty() { "-".to_string() } else { adds.join("+") }, reads.join(",")));
+    }
+    // --- repair_index model correspondence
+    for _ in 0..(if thorough { 600 } else { 60 }) {
+        let np = rng.below(6) as usize;
+        let labels: Vec<String> = (0..np).map(|i| ((b'a' + i as u8) as char).to_string()).collect();
+        let mut packs = Vec::new();
+        let mut nblobs = Vec::new();
+        for l in &labels {
+            let t = if rng.chance(1, 2) { 't' } else { 'd' };
+            let n = rng.below(4);
+            let mut adds = Vec::new();
+            for _ in 0..n {
+                let ul = rand_ulen(rng).map_or("-".to_string(), |u| u.to_string());
+                adds.push(format!("{}.{}.{ul}", hex::encode(rand_id_distinct(rng)), rng.below(300)));
+            }
+            nblobs.push(n);
+            let flag = if rng.chance(1, 6) { "trunc" } else { "ok" };
+            stats.hit(format!("rix.pack.{flag}"));
+            packs.push(format!("{l}:{t}:{}:{flag}", if adds.is_empty() { "-".to_string() } else { adds.join("+") }));
+        }
+        // listings: a label is either listed (un)marked in exactly one place, or several times but then always unmarked,
+        // or not at all (index file lost) — results that depend on the streaming order of index files are not generated
+        let nf = 1 + rng.below(3) as usize;
+        let mut fl: Vec<(Vec<String>, Vec<String>)> = vec![(vec![], vec![]); nf];
+        for (i, l) in labels.iter().enumerate() {
+            let variant = |rng: &mut Rng| if nblobs[i] > 0 && rng.chance(1, 4) { format!("{l}~") } else { l.clone() };
+            match rng.below(8) {
+                0 | 1 => stats.hit("rix.unlisted"),
+                2 => {
+                    stats.hit("rix.marked");
+                    let k = rng.below(nf as u64) as usize;
+                    let v = variant(rng);
+                    fl[k].1.push(v);
+                }
+                3 => {
+                    stats.hit("rix.listed-twice");
+                    for _ in 0..2 {
+                        let k = rng.below(nf as u64) as usize;
+                        let v = variant(rng);
+                        fl[k].0.push(v);
+                    }
+                }
+                _ => {
+                    let k = rng.below(nf as u64) as usize;
+                    let v = variant(rng);
+                    fl[k].0.push(v);
+                }
+            }
+        }
+        if rng.chance(1, 3) {
+            stats.hit("rix.nonexistent-pack");
+            let k = rng.below(nf as u64) as usize;
+            let e = format!("?{}", 1 + rng.below(3));
+            if rng.chance(1, 2) { fl[k].0.push(e) } else { fl[k].1.push(e) }
+        }
+        let mut toks: Vec<String> = Vec::new();
+        for (a, b) in fl {
+            if a.is_empty() && b.is_empty() {
+                continue;
+            }
+            let j = |v: Vec<String>| if v.is_empty() { "-".to_string() } else { v.join(",") };
+            let t = format!("{}|{}", j(a), j(b));
+            if !toks.contains(&t) {
+                toks.push(t);
+            }
+        }
+        let ra = u8::from(rng.chance(1, 4));
+        ops.push(format!(
+            "c08 rix {ra} {} {}",
+            if packs.is_empty() { "-".to_string() } else { packs.join(";") },
+            if toks.is_empty() { "-".to_string() } else { toks.join("/") }
+        ));
     }
     // --- repositories
     let variants = ["backup", "prune-fast", "prune-copy", "prune-all", "copy"];
@@ -913,12 +998,162 @@ fn exec_repair(variant: &str, seed: u64) -> String {
     "ok".into()
 }
 
+fn exec_rix(read_all: bool, packs: &str, files: &str) -> String {
+    let (h, repo) = match RepoHandle::init_nocache(MemBackend::new(), None, &ConfigOptions::default()) {
+        Ok(x) => x,
+        Err(e) => return errkind(&e),
+    };
+    let dbe = rustic_core::verif::repository::dbe(&repo);
+    let key = rustic_core::verif::keyfile::master_key_to_key(&h.key);
+    // build and store the packs
+    struct P {
+        label: String,
+        id: Id,
+        blobs: Vec<IndexBlob>,
+    }
+    let mut ps: Vec<P> = Vec::new();
+    if packs != "-" {
+        for (k, tok) in packs.split(';').enumerate() {
+            let f: Vec<&str> = tok.split(':').collect();
+            if f.len() != 4 || ps.iter().any(|p| p.label == f[0]) || f[0].is_empty() || !f[0].chars().all(|c| c.is_ascii_lowercase()) {
+                return "bad-op".into();
+            }
+            let bt = match f[1] {
+                "t" => BlobType::Tree,
+                "d" => BlobType::Data,
+                _ => return "bad-op".into(),
+            };
+            let mut packer = BasicPackerHook::new(bt, PackSizer::fixed(u32::MAX));
+            if f[2] != "-" {
+                for a in f[2].split('+') {
+                    let g: Vec<&str> = a.split('.').collect();
+                    if g.len() != 3 {
+                        return "bad-op".into();
+                    }
+                    let (Some(id), Ok(len)) = (parse_id(g[0]), g[1].parse::<usize>()) else { return "bad-op".into() };
+                    let ul = if g[2] == "-" {
+                        None
+                    } else {
+                        match g[2].parse::<u32>().ok().and_then(NonZeroU32::new) {
+                            Some(u) => Some(u),
+                            None => return "bad-op".into(),
+                        }
+                    };
+                    // the pack number goes into the data so that equal add lists still give different files
+                    let mut data = det_data(&id, len);
+                    if let Some(b) = data.first_mut() {
+                        *b ^= k as u8;
+                    }
+                    if let Err(e) = packer.add_raw(Bytes::from(data), &BlobId::from(id), len as u64, ul) {
+                        return errkind(&e);
+                    }
+                }
+            }
+            let header = match packer.header_bytes() {
+                Ok(x) => x,
+                Err(e) => return errkind(&e),
+            };
+            let enc = match key.encrypt_data(&header) {
+                Ok(x) => x,
+                Err(e) => return errkind(&e),
+            };
+            if let Err(e) = packer.write_header(Bytes::from(enc)) {
+                return errkind(&e);
+            }
+            let (file, index) = packer.take_data();
+            let mut bytes = Vec::new();
+            for b in file.slice() {
+                bytes.extend_from_slice(b);
+            }
+            match f[3] {
+                "ok" => {}
+                "trunc" => {
+                    _ = bytes.pop();
+                }
+                _ => return "bad-op".into(),
+            }
+            let id = Id::new(Sha256::digest(&bytes).into());
+            h.be.put_raw(FileType::Pack, id, Bytes::from(bytes));
+            ps.push(P { label: f[0].to_string(), id, blobs: index.blobs });
+        }
+    }
+    // the index files
+    let mut seen_tokens: Vec<&str> = Vec::new();
+    let entry = |e: &str| -> Option<IndexPack> {
+        if let Some(k) = e.strip_prefix('?') {
+            let k: u8 = k.parse().ok()?;
+            return Some(IndexPack { id: PackId::from(Id::new([k; 32])), blobs: vec![], time: None, size: None });
+        }
+        let (label, cut) = match e.strip_suffix('~') {
+            Some(l) => (l, true),
+            None => (e, false),
+        };
+        let p = ps.iter().find(|p| p.label == label)?;
+        let mut blobs = p.blobs.clone();
+        if cut {
+            blobs.pop()?;
+        }
+        Some(IndexPack { id: PackId::from(p.id), blobs, time: None, size: None })
+    };
+    if files != "-" {
+        for tok in files.split('/') {
+            if seen_tokens.contains(&tok) {
+                return "bad-op".into();
+            }
+            seen_tokens.push(tok);
+            let Some((a, b)) = tok.split_once('|') else { return "bad-op".into() };
+            let list = |s: &str| -> Option<Vec<IndexPack>> { if s == "-" { Some(vec![]) } else { s.split(',').map(&entry).collect() } };
+            let (Some(packs), Some(dels)) = (list(a), list(b)) else { return "bad-op".into() };
+            if packs.is_empty() && dels.is_empty() {
+                return "bad-op".into();
+            }
+            let f = IndexFile { supersedes: None, packs, packs_to_delete: dels };
+            if let Err(e) = dbe.save_file(&f) {
+                return errkind(&e);
+            }
+        }
+    }
+    drop(repo);
+    let repo = match h.open_nocache() {
+        Ok(r) => r,
+        Err(e) => return errkind(&e),
+    };
+    if let Err(e) = repo.repair_index(&RepairIndexOptions::default().read_all(read_all), false) {
+        return errkind(&e);
+    }
+    let dbe = rustic_core::verif::repository::dbe(&repo);
+    let mut counts: Vec<(usize, usize, bool)> = vec![(0, 0, true); ps.len()];
+    let mut unknown = 0usize;
+    for id in h.be.ids(FileType::Index) {
+        let f: IndexFile = match dbe.get_file(&rustic_core::repofile::IndexId::from(id)) {
+            Ok(f) => f,
+            Err(e) => return errkind(&e),
+        };
+        for (p, marked) in f.packs.iter().map(|p| (p, false)).chain(f.packs_to_delete.iter().map(|p| (p, true))) {
+            match ps.iter().position(|q| q.id == Id::from(*p.id)) {
+                None => unknown += 1,
+                Some(k) => {
+                    if marked {
+                        counts[k].1 += 1;
+                    } else {
+                        counts[k].0 += 1;
+                    }
+                    counts[k].2 &= same_blobs(&p.blobs, &ps[k].blobs);
+                }
+            }
+        }
+    }
+    let v: Vec<String> = ps.iter().zip(&counts).map(|(p, c)| format!("{}:u{}m{}{}", p.label, c.0, c.1, if c.2 { "=" } else { "x" })).collect();
+    format!("ok {} ?{unknown}", if v.is_empty() { "-".to_string() } else { v.join(",") })
+}
+
 pub fn exec(t: &[&str]) -> String {
     let t: Vec<String> = t.iter().map(|s| (*s).to_string()).collect();
     guarded(move || match t.iter().map(String::as_str).collect::<Vec<_>>().as_slice() {
         ["hdr", blobs] => exec_hdr(blobs),
         ["parse", h] => exec_parse(h),
         ["pack", t, adds, reads] => exec_pack(t, adds, reads),
+        ["rix", ra, packs, files] if *ra == "0" || *ra == "1" => exec_rix(*ra == "1", packs, files),
         ["repo", variant, seed] => match seed.parse::<u64>() {
             Ok(s) if ["backup", "prune-fast", "prune-copy", "prune-all", "copy"].contains(variant) => exec_repo(variant, s),
             _ => "bad-op".into(),
